@@ -7,7 +7,7 @@ every sink capacity; nothing is bounded.  Helper lemmas: `Proofs/C09.lean`.
 -/
 import CamVerif.Proofs.C09
 import CamVerif.Proofs.C09Growth
-import CamVerif.Props.C08
+import CamVerif.Proofs.C08Encode
 import CamVerif.Gen.CmdConsts
 namespace CamVerif.C09
 open CamVerif CamVerif.Cmd
@@ -509,7 +509,7 @@ private theorem ack_core (p : Profile) (cmdId id : Nat) (scd : Bytes) (kd : Spec
       .ok ⟨⟨⟨0, .genCp .success⟩, C08.ofKind kd, id, scd.length⟩, 12, scd⟩ := by
   have h0 : (0 : Nat) < 2 ^ 16 := by decide
   refine ⟨(C08.encodeAck_fields 0 cmdId id scd h0 hcmd hid hlen).1, ?_⟩
-  have := C08.ack_accepts_encoded p 0 cmdId id scd (.genCp .SUCCESS) kd h0 hcmd hid hlen
+  have := C08.ack_accepts_encoded_core p 0 cmdId id scd (.genCp .SUCCESS) kd h0 hcmd hid hlen
     (by decide) hkd
   rw [this]; rfl
 
@@ -554,7 +554,7 @@ theorem ack_of_cmd_decodes (p : Profile) (c : Cmd) (id : Nat) (resp : Bytes)
       simp only [ackScdOf, body]; rw [hresp]; exact hr.2, .readMem, (by show Spec.GenCPAck.ackKindOfId 0x0801 = _; decide), rfl,
       (by show (0x0801 : Nat) < 2 ^ 16; decide), ?_⟩
     simp only [ViewReturns, ackScdOf, body]
-    exact ((C08.ack_views_accept_encoded p _).1 resp rfl).1
+    exact ((C08.ack_views_accept_encoded_core p _).1 resp rfl).1
   | writeMem w hw =>
     have hv := built_len hw
     have hl4 : (Spec.GenCPAck.encodeValueScd w.data.length).length = 4 := by
@@ -563,7 +563,7 @@ theorem ack_of_cmd_decodes (p : Profile) (c : Cmd) (id : Nat) (resp : Bytes)
       simp only [ackScdOf, body, hl4]; decide, .writeMem, (by show Spec.GenCPAck.ackKindOfId 0x0803 = _; decide), rfl,
       (by show (0x0803 : Nat) < 2 ^ 16; decide), ?_⟩
     simp only [ViewReturns, ackScdOf, body]
-    exact ((C08.ack_views_accept_encoded p _).2.1 w.data.length hv rfl).1
+    exact ((C08.ack_views_accept_encoded_core p _).2.1 w.data.length hv rfl).1
   | readMemStacked es s ht hn =>
     have hcr := ctor_refuses_readMemStacked es
     by_cases h1 : 12 * es.length ≤ U16_MAX ∧ (es.map (·.readLength)).sum ≤ U16_MAX
@@ -576,7 +576,7 @@ theorem ack_of_cmd_decodes (p : Profile) (c : Cmd) (id : Nat) (resp : Bytes)
         simp only [ackScdOf, body]; rw [hresp]; omega, .readMemStacked, (by show Spec.GenCPAck.ackKindOfId 0x0807 = _; decide), rfl,
         (by show (0x0807 : Nat) < 2 ^ 16; decide), ?_⟩
       simp only [ViewReturns, ackScdOf, body]
-      exact ((C08.ack_views_accept_encoded p _).1 resp rfl).2
+      exact ((C08.ack_views_accept_encoded_core p _).1 resp rfl).2
     · have : ReadMemStacked.new es = .err .invalidPacket := hcr.1.2 (by omega)
       rw [this] at hn; cases hn
   | writeMemStacked ws s hb hn =>
@@ -601,7 +601,7 @@ theorem ack_of_cmd_decodes (p : Profile) (c : Cmd) (id : Nat) (resp : Bytes)
         simp only [ackScdOf, body, hmap, hlen]; omega, .writeMemStacked, (by show Spec.GenCPAck.ackKindOfId 0x0809 = _; decide), rfl,
         (by show (0x0809 : Nat) < 2 ^ 16; decide), ?_⟩
       simp only [ViewReturns, ackScdOf, body, hmap]
-      exact (C08.ack_views_accept_encoded p _).2.2 _ hls rfl
+      exact (C08.ack_views_accept_encoded_core p _).2.2 _ hls rfl
     · have : WriteMemStacked.new p ws = .err .invalidPacket := hcr.1.2 (by omega)
       rw [this] at hn; cases hn
 
@@ -622,7 +622,7 @@ theorem pending_ack_of_cmd_decodes (p : Profile) (c : Cmd) (id t : Nat)
     (by decide) (by rw [hl4]; decide) (by decide)
   refine ⟨by rw [hlen, hl4], ?_, _, hparse, rfl, rfl, rfl, ?_⟩
   · simp only [Cmd.maximumAckLen, ACK_HEADER_LENGTH, MINIMUM_ACK_SCD_LENGTH]; omega
-  · exact ((C08.ack_views_accept_encoded p _).2.1 t ht rfl).2
+  · exact ((C08.ack_views_accept_encoded_core p _).2.1 t ht rfl).2
 
 /-- non-vacuity: `ReadMem(4, 3)` answered with 3 bytes, and a two-entry stacked write -/
 example : Ack.AckPacket.parse .dev (conformingAck (body (.readMem ⟨4, 3⟩)) 7 [0xA, 0xB, 0xC]) =
